@@ -88,21 +88,28 @@ class OrderedTaskGroup(TaskGroup):
 
     def __init__(self, **data) -> None:
         super().__init__(**data)
-        # add a constraint between each task
-        for i in range(len(self.list_of_tasks) - 1):
-            task_i, task_j = self.list_of_tasks[i], self.list_of_tasks[i + 1]
-            if self.kind == "lax":
-                order_assertion = task_i._end <= task_j._start
-            elif self.kind == "strict":
-                order_assertion = task_i._end < task_j._start
-            else:  # kind == 'tight':
-                order_assertion = task_i._end == task_j._start
-            # the order applies only if both tasks are scheduled
-            if task_i.optional or task_j.optional:
-                order_assertion = z3.Implies(
-                    z3.And(task_i._scheduled, task_j._scheduled), order_assertion
-                )
-            self._scheduled_assertion.append(order_assertion)
+        # add a constraint between each task and the next scheduled one: task j follows
+        # task i if all the tasks listed in between are unscheduled optional tasks
+        nb_tasks = len(self.list_of_tasks)
+        for i in range(nb_tasks - 1):
+            for j in range(i + 1, nb_tasks):
+                tasks_between = self.list_of_tasks[i + 1 : j]
+                if any(not task.optional for task in tasks_between):
+                    break
+                task_i, task_j = self.list_of_tasks[i], self.list_of_tasks[j]
+                if self.kind == "lax":
+                    order_assertion = task_i._end <= task_j._start
+                elif self.kind == "strict":
+                    order_assertion = task_i._end < task_j._start
+                else:  # kind == 'tight':
+                    order_assertion = task_i._end == task_j._start
+                # the order applies only to scheduled tasks
+                conditions = [
+                    task._scheduled for task in (task_i, task_j) if task.optional
+                ] + [z3.Not(task._scheduled) for task in tasks_between]
+                if conditions:
+                    order_assertion = z3.Implies(z3.And(conditions), order_assertion)
+                self._scheduled_assertion.append(order_assertion)
 
         self.set_z3_assertions(z3.And(self._scheduled_assertion))
 
